@@ -463,6 +463,14 @@ class Explorer:
                 out.append((s0, ('raise', exc)))
                 continue
             items = itv.items if (isinstance(itv, TupleVal) and len(itv.items) <= 8) else None
+            if items is None and isinstance(itv, RF):
+                ra = itv.single_atom()
+                if isinstance(ra, tuple) and ra and ra[0] == 'range' and 2 <= len(ra) <= 3:
+                    bounds = [C_.const_value() for C_ in (rf_of_key(k_) for k_ in ra[1:])]
+                    if all(b is not None and b.denominator == 1 for b in bounds):
+                        lo, hi = (0, int(bounds[0])) if len(bounds) == 1 else (int(bounds[0]), int(bounds[1]))
+                        if 0 <= hi - lo <= 4:
+                            items = [RF.const(i) for i in range(lo, hi)]
             live = [s0]
             k = 0
             while live:
@@ -1246,6 +1254,12 @@ class Explorer:
             fk = hk[1]
             if fk in flds or (isinstance(fk, tuple) and fk and fk[0] == '[]' and '[]' in flds):
                 del s.heap[hk]
+
+
+def rf_of_key(k) -> RF:
+    if isinstance(k, tuple) and k and k[0] == 'rf':
+        return RF({m: Fraction(c) for m, c in k[1]}, {m: Fraction(c) for m, c in k[2]})
+    return RF.atom(k)
 
 
 def _as_load(t: ast.expr) -> ast.expr:
